@@ -6,8 +6,8 @@ from . import translator
 from .common import *
 
 
-def gen_fit_case(rng, i, quant=None, family=None, eps=None):
-    c = gen_problem(rng, quant=quant, N=None, family=family, eps=eps)
+def gen_fit_case(rng, i, quant=None, family=None, eps=None, scalar=None):
+    c = gen_problem(rng, quant=quant, N=None, family=family, eps=eps, scalar=scalar)
     m = c["meta"]
     lo, hi = m["range"]
     P = m["P"]
@@ -88,6 +88,10 @@ def main(tier, seed, replay=None):
     for i in range(24 if tier == "quick" else 400):
         fam = list(RANKDEF)[i % len(RANKDEF)]
         cases.append(gen_fit_case(rng, i, quant=8, family=fam, eps=rng.choice([1e-6, 1e-5])))
+    for i in range(40 if tier == "quick" else 600):
+        c = gen_fit_case(rng, i, quant=(8 if i % 2 else None), scalar=("f32" if i % 4 == 3 else "f64"))
+        scale_up_for_eps(rng, c)
+        cases.append(c)
     for i, c in enumerate(cases):
         c["id"] = i
     results = run_harness(binp, "scenario", cases, workdir, timeout_ms=20000)
@@ -122,10 +126,12 @@ def main(tier, seed, replay=None):
     from . import num
     nterms, nidx = [], []
     for c, r, info in idx:
-        if not info["fit"]["ok"]:
-            continue
         st = r["steps"]
         after, tb = st[info["fi"] + 1]["v"], st[info["fi"] + 4]["v"]
+        # failed fits too: whatever state a fit leaves behind must be coherent (coefficients optimal for the parameters in
+        # effect, residuals theirs) whenever it exposes residuals at all
+        if after["resid"] is None or after["coef"] is None:
+            continue
         fam = c["meta"]["family"]
         if fam in RANKDEF:
             t = num.rankdef_term(c, after, tb, RANKDEF[fam][3], mode=3)
